@@ -73,6 +73,7 @@ type interpreter struct {
 	collisionFree bool
 	czCount     int
 	divCount    int
+	curFr       *frame
 	divCache    map[divKey][2]*smt.Term
 	opaqueAlloc bool
 }
@@ -543,6 +544,7 @@ func runFrame(fr *frame) {
 				}
 			}
 			fr.cur = instr
+			fr.i.curFr = fr
 			fr.i.steps++
 			if fr.i.steps > fr.i.cfg.MaxSteps {
 				panic(pathAbort{"limit", fmt.Sprintf("more than %d instructions on one path", fr.i.cfg.MaxSteps)})
